@@ -90,7 +90,7 @@ PLAN = {
         "tar": {"std": (["all"], 2, 20, 110), "shipped": (["all"], 2, 20, 110)},
         "xml": {"std": (["wf+ns+redef"], 2, 150, 110), "default": (["wf+ns+redef"], 2, 150, 110),
                 "shipped": (["wf+ns+redef"], 2, 150, 110), "tests": (["wf+ns+redef"], 1, 60, 110)},
-        "rest": {"std": (["all"], 4, 300, 110), "default": (["all"], 8, 600, 110), "shipped": (["all"], 2, 150, 110),
+        "rest": {"std": (["all"], 4, 300, 110), "default": (["all"], 10, 1500, 200), "shipped": (["all"], 2, 150, 110),
                  "tests": (["all"], 1, 60, 110)},
     },
     "thorough": {
@@ -100,7 +100,7 @@ PLAN = {
         "xml": {"std": (["wf+ns+redef", "wf+ns+redef", "wf+ns+redef", "wf", "ns", "redef"], 6, 500, 270),
                 "shipped": (["wf+ns+redef", "wf+ns+redef", "wf+ns+redef", "wf", "ns", "redef"], 6, 500, 270),
                 "tests": (["wf+ns+redef"], 4, 150, 270)},
-        "rest": {"std": (["all"], 12, 600, 270), "default": (["all"], 32, 600, 270), "shipped": (["all"], 6, 600, 270),
+        "rest": {"std": (["all"], 12, 600, 270), "default": (["all"], 32, 2000, 400), "shipped": (["all"], 6, 600, 270),
                  "tests": (["all"], 4, 150, 270)},
     },
 }
